@@ -328,6 +328,7 @@ type Contract struct {
 	ResNames   []string
 	Requires   []Clause
 	Ensures    []Clause
+	Defines    []Clause
 	Modifies   []Clause
 	ModAll     bool // modifies *
 	Loops      map[int]*LoopSpec
@@ -366,7 +367,7 @@ func NewContractSet() *ContractSet {
 }
 
 var clauseKeywords = map[string]bool{
-	"requires": true, "ensures": true, "modifies": true, "invariant": true, "decreases": true,
+	"requires": true, "ensures": true, "defines": true, "modifies": true, "invariant": true, "decreases": true,
 	"panics": true, "mode": true, "trusted": true, "inline": true, "loop": true, "func": true,
 	"extern": true, "extfunc": true, "spec": true, "property": true, "pure": true, "lemma": true, "noeffect": true,
 	"opt": true, "interface": true,
@@ -573,6 +574,14 @@ func (cs *ContractSet) ParseFile(path string, pkgPath string) error {
 					return err
 				}
 				cur.Ensures = append(cur.Ensures, cl)
+			case "defines":
+				// definitional clause: introduces an uninterpreted spec function as "what this function returns";
+				// assumed at call sites, not checked against the body (listed as an assumption)
+				cl, err := mkClause()
+				if err != nil {
+					return err
+				}
+				cur.Defines = append(cur.Defines, cl)
 			case "modifies":
 				if text == "*" {
 					if curLoop != nil {
